@@ -122,7 +122,7 @@ impl LruPageCache {
     pub fn read(&self, file_id: FileId, offset: u64, length: usize) -> Result<CacheBuffer> {
         // Calculate which pages we need
         let start_page = FileManager::offset_to_page_id(offset);
-        let end_offset = offset + length as u64;
+        let end_offset = offset.saturating_add(length as u64);
         let end_page = FileManager::offset_to_page_id(end_offset.saturating_sub(1));
         
         let mut result_buffer = CacheBuffer::new();
@@ -271,7 +271,7 @@ impl LruPageCache {
     pub fn prefetch(&self, file_id: FileId, offset: u64, length: usize) -> Result<()> {
         // Calculate pages to prefetch
         let start_page = FileManager::offset_to_page_id(offset);
-        let end_offset = offset + length as u64;
+        let end_offset = offset.saturating_add(length as u64);
         let end_page = FileManager::offset_to_page_id(end_offset.saturating_sub(1));
         
         // Prefetch each page (load into cache without returning data)
@@ -286,7 +286,7 @@ impl LruPageCache {
     pub fn read_with_prefetch(&self, file_id: FileId, offset: u64, length: usize, prefetch_ahead: usize) -> Result<CacheBuffer> {
         // Start prefetching in the background (simplified - would use async in real implementation)
         if prefetch_ahead > 0 {
-            let prefetch_offset = offset + length as u64;
+            let prefetch_offset = offset.saturating_add(length as u64);
             let _ = self.prefetch(file_id, prefetch_offset, prefetch_ahead);
         }
         
@@ -317,7 +317,7 @@ impl LruPageCache {
     /// Invalidate a range of pages
     pub fn invalidate_range(&self, file_id: FileId, start_offset: u64, length: usize) -> Result<()> {
         let start_page = FileManager::offset_to_page_id(start_offset);
-        let end_offset = start_offset + length as u64;
+        let end_offset = start_offset.saturating_add(length as u64);
         let end_page = FileManager::offset_to_page_id(end_offset.saturating_sub(1));
         
         for page_id in start_page..=end_page {
